@@ -79,6 +79,10 @@ def gen_inputs(ctx):
                 for _ in range(rng.randrange(1, 4))]
         last = rq(app, rng.choice(vals), rng.choice([0, 1, 12, 20, 21, 24, 32]), rng.choice(["pos", "kw-all", "kw-reversed", "index-only", "param-only"]))
         out.append(("Bip85", dict(last, master=rng.choice(masters), history=hist), ("spellings-random-history", app)))
+    # capacity: a request, then more than a thousand distinct other requests on the same object, then the request again
+    for app, p_, i_ in (("hex", 16, 0), ("wif", 0, 0), ("mnemonic", 12, 1)) if not q else (("hex", 16, 0),):
+        out.append(("Bip85", dict(rq(app, p_, i_, "kw-all"), master=masters[0], history=[rq(app, p_, i_, "kw-all")], bulk=1100 if q else 4400),
+                    ("after-many-other-requests", app)))
     # two DIFFERENT masters with the SAME 4-byte fingerprint (cd9258b3, a birthday pair of 16-byte seeds), asked the same
     # question one after the other in one process: whatever is remembered between calls must be remembered per KEY,
     # not per short identifier
